@@ -90,3 +90,129 @@ Definition resp_diff (m : outcome response) (obs : response) : Z :=
               (if perm_eqb call_eqb (r_log r) (r_log obs) then 0 else 4)
   | _ => 8
   end%Z.
+
+(* ---------- property predicates evaluated on the ENGINE's observation ---------- *)
+From TV Require Import Model.SpecExec.
+
+Definition in32b' (z : Z) : bool := ((-2147483648 <=? z) && (z <=? 2147483647))%Z.
+
+(* C03: structural conformance of returned data to schema and selection *)
+Fixpoint confb (sch : schema) (doc : document) (vs : vars) (fuel : nat) (t : ty) (nodes : list fnode)
+         (v : pyval) {struct fuel} : bool :=
+  match fuel with
+  | O => false
+  | S fuel' =>
+    let obj (rt : string) (kv : list (string * pyval)) : bool :=
+      match find_type sch rt with
+      | Some (DObject _ _) =>
+          match collect_subfields sch doc vs COLLECT_FUEL rt nodes [] [] with
+          | Some sub =>
+              (fix go (sub : fields) (kv : list (string * pyval)) {struct sub} : bool :=
+                 match sub with
+                 | [] => match kv with [] => true | _ => false end
+                 | (k, ns) :: rest =>
+                     match ns with
+                     | [] => false
+                     | node :: _ =>
+                         match get_field_definition sch rt (fn_name node) with
+                         | None => go rest kv
+                         | Some fd =>
+                             match kv with
+                             | (k', x) :: kv' =>
+                                 String.eqb k k' && confb sch doc vs fuel' (fd_type fd) ns x && go rest kv'
+                             | [] => false
+                             end
+                         end
+                     end
+                 end) sub kv
+          | None => false
+          end
+      | _ => false
+      end in
+    (fix ct (t : ty) (v : pyval) {struct t} : bool :=
+       match t with
+       | TNonNull t' => negb (is_none v) && ct t' v
+       | TList t' => is_none v || match v with PList l => forallb (ct t') l | _ => false end
+       | TNamed n =>
+           is_none v ||
+           match find_type sch n with
+           | Some DScalar =>
+               if String.eqb n "Int" then match v with PInt z => in32b' z | _ => false end
+               else if String.eqb n "Float" then match v with PFloat f => sf_finite f | _ => false end
+               else if String.eqb n "String" || String.eqb n "ID" then match v with PStr _ => true | _ => false end
+               else if String.eqb n "Boolean" then match v with PBool _ => true | _ => false end
+               else true
+           | Some (DEnum values) => match v with PStr x => mem_str x values | _ => false end
+           | Some (DObject _ _) => match v with PDict kv => obj n kv | _ => false end
+           | Some (DInterface _) | Some (DUnion _) =>
+               match v with PDict kv => existsb (fun rt => obj rt kv) (possible_types sch n) | _ => false end
+           | _ => false
+           end
+       end) t v
+  end.
+
+Definition root_confb (sch : schema) (doc : document) (vs : vars) (op : operation) (data : pyval) : bool :=
+  match data with
+  | PNone => true
+  | PDict kv =>
+      match root_type_of sch (o_kind op) with
+      | Some rt =>
+          let root_node := {| fn_loc := (0, 0)%Z; fn_alias := None; fn_name := "<root>"; fn_args := [];
+                              fn_dirs := []; fn_sels := o_sels op |} in
+          confb sch doc vs 40 (TNamed rt) [root_node] data
+      | None => false
+      end
+  | _ => false
+  end.
+
+(* walk a response path through data: Some v = value there; None = the path runs into a null
+   (or non-container) before its end *)
+Fixpoint data_at (v : pyval) (p : list pkey) : option pyval :=
+  match p with
+  | [] => Some v
+  | KName k :: p' => match v with
+                     | PDict kv => match dict_get k kv with Some x => data_at x p' | None => None end
+                     | _ => None end
+  | KIdx i :: p' => match v with
+                    | PList l => match nth_error l (Z.to_nat i) with Some x => data_at x p' | None => None end
+                    | _ => None end
+  end.
+
+(* C02 soundness on the observation: every error's path ends at, or passes through, a null *)
+Definition error_points_at_null (data : pyval) (g : gerr) : bool :=
+  match g_path g with
+  | None => is_none data
+  | Some p => match data_at data p with Some PNone | None => true | Some _ => false end
+  end.
+
+Fixpoint path_mem (p : list pkey) (l : list (list pkey)) : bool :=
+  match l with [] => false | q :: l' => path_eqb p q || path_mem p l' end.
+
+Definition paths_of (errs : list gerr) : list (list pkey) :=
+  flat_map (fun g => match g_path g with Some p => [p] | None => [] end) errs.
+
+Definition subset_paths (a b : list (list pkey)) : bool := forallb (fun p => path_mem p b) a.
+
+(* C01/C02 on the observation: data is what the specification's algorithm prescribes, every
+   origin of a field error is reported (complete), no error points anywhere else (sound) *)
+Definition spec_verdict (sch : schema) (doc : document) (U : usercode) (cfg : config)
+           (opname : option string) (raw : vars) (root : pyval) (obs : response) : Z :=
+  match select_operation doc opname with
+  | None => 0
+  | Some op =>
+      match coerce_variables sch 40 (o_vars op) raw with
+      | Ok (vs, []) =>
+          match spec_execute_operation sch doc vs U op root with
+          | None => 64
+          | Some (data, origins) =>
+              (if pyval_eqb data (r_data obs) then 0 else 1) +
+              (if subset_paths origins (paths_of (r_errors obs)) ||
+                  negb (match o_kind op with OpMutation => false | _ => parent_concurrently cfg end)
+               then 0 else 2) +
+              (if subset_paths (paths_of (r_errors obs)) origins then 0 else 4) +
+              (if forallb (error_points_at_null (r_data obs)) (r_errors obs) then 0 else 8) +
+              (if root_confb sch doc vs op (r_data obs) then 0 else 16)
+          end
+      | _ => 0
+      end
+  end%Z.
